@@ -1,4 +1,5 @@
-import Infretis.Lemmas.RepexC06RestoreFull
+import Infretis.Lemmas.RepexC06Chain
+import Infretis.Lemmas.RepexC04C05
 /-
 C06 — same seed, same run: determinism and restart equivalence (information-preservation argument on the
 model; byte identity itself is established by the tie, harness/props/c06.py).
@@ -12,7 +13,7 @@ on occ and on toinitiate (= t0); both appended the same rows to their bases ra, 
 By design NOT compared: cworker, restarted, rgenRestored, rows (they live in the data file).
 -/
 namespace Infretis.C06
-open Infretis.Repex Infretis.Perm
+open Infretis.Repex Infretis.Perm Infretis.Perm.C05
 
 /-- **1. `restore (persist s)` is observationally `s`** (full).  For a stop state `s` — `StopState s pns`: a one-worker
     state right after `treat_output`, `pns` its live paths in slot order; shapes, every real slot idle with a path whose
@@ -200,6 +201,61 @@ theorem reissue_survives_second_restart (recs : List ((List Nat × List Nat) × 
     simpa [List.map_map] using this
   · simp only [persist, h4o]
 
+/-- **5. `StopState` is derived, not assumed**: for every state `y` reached by a well-formed one-worker history
+    (`Reach1`: C03 `InvR`, C05 `Inv5`, C07 `NInv`, this package's `TidyY`/`One`/`Ent`, all of them preserved by every
+    event from a one-worker start state `Start1`) with the initiation closed, the state `treat_output` leaves behind at a
+    `.step` — the instant the restart file is written — is a stop state: C03 gives shapes, idle slots, distinct live
+    paths; C05 the weight table = slot rows and the sorted non-zero diagonal; C07 an empty record and spawn counter =
+    steps done; `TidyY` the empty/zero ghost slot and tables keyed exactly by the live paths. -/
+theorem stopState_of_reachable {y0 y y' : Sys} (h0 : Start1 y0) (evs : List Ev) (hh : HistOk y0 evs)
+    (hy : run y0 evs = .ok y) (hti : y.s.toinitiate = -1)
+    (k : Nat) (st : Status) (w : List (List Rat)) (o : PickOutcome) (hev : EvOk y (.step k st w o))
+    (h : sysStep y (.step k st w o) = .ok y') {r : St × Job × List Job} (hT : stepTreat y k st w = .ok r) :
+    StopState r.1 (livePns r.1) :=
+  (stopState_of_reach (run_reach1 evs h0.reach hh hy) hti k st w o hev h hT).1
+
+/-- **6. restart equivalence for every one-worker history and every split point — no state hypothesis left.**
+    `y0` any one-worker start state (`Start1`: a fresh start `Init5`, or a state rebuilt from an image `Init5R`, tidy
+    tables, nothing recorded, entropy = seed, spawn counter = cstep); the history is what the scheduler does: `.start`,
+    `.initDone`, then `.step` events, well formed in C05's sense (`HistOk`: accepted moves bring weight vectors of the
+    family); the split is at any `.step` that is not the last.  Then the stopped state is a stop state, its image loads
+    (the restart's engine table being the stopped one with worker 0's claims released), and the restarted run —
+    `.start` with the saved stream position, `.initDone`, the remaining steps — ends observationally equal to the
+    uninterrupted one: same W, slots, locks, counters, stream position, spawn ordinal, tables; same jobs in flight;
+    the rows appended after the stop are the same. -/
+theorem restart_equivalence_reachable {y0 yN : Sys} (h0 : Start1 y0) (o0 : PickOutcome) (sv0 : Nat)
+    (steps1 : List Ev) (k : Nat) (st : Status) (w : List (List Rat)) (o : PickOutcome) (rest : List Ev)
+    (hs1 : StepsOnly steps1) (hs2 : StepsOnly rest) (hne : rest ≠ [])
+    (hh : HistOk y0 ((.start o0 sv0 :: .initDone :: steps1) ++ (.step k st w o :: rest)))
+    (hrun : run y0 ((.start o0 sv0 :: .initDone :: steps1) ++ (.step k st w o :: rest)) = .ok yN) :
+    ∃ y r s' yN', run y0 (.start o0 sv0 :: .initDone :: steps1) = .ok y ∧ stepTreat y k st w = .ok r ∧
+      StopState r.1 (livePns r.1) ∧
+      restore (persist r.1) r.1.n r.1.workers r.1.tsteps (freeEngines r.1.occ 0) r.1.ensEng
+        (fun pn => (r.1.wts.lookup pn).getD []) = .ok s' ∧
+      run { s := s', jobs := [] } (.start o (persist r.1).rngDraws :: .initDone :: rest) = .ok yN' ∧
+      ObsR True (-1) r.1.rows [] yN.s yN'.s ∧ yN.jobs = yN'.jobs ∧
+      ∃ rws, yN.s.rows = r.1.rows ++ rws ∧ yN'.s.rows = rws := by
+  obtain ⟨y, r, s', yN', a1, a2, a3, _, _, _, _, _, a4, _, a5, a6, a7, a8⟩ :=
+    restart_reachable h0 o0 sv0 steps1 k st w o rest hs1 hs2 hne hh hrun
+  exact ⟨y, r, s', yN', a1, a2, a3, a4, a5, a6, a7, a8⟩
+
+/-- **7. any chain of restarts.**  `Restarts y0 evs yN'`: the history `evs` executed from `y0` with any number of
+    restarts (each right after the `treat_output` of a `.step` that is not the last one of what remains; each rebuilt
+    state again a start state: `restored_start1`).  If `evs` also runs uninterrupted from the one-worker start state
+    `y0` to `yN`, then `yN` and `yN'` are observationally equal, hold the same jobs, and the rows `yN'` appended since its
+    last restart are a suffix of the rows of `yN`. -/
+theorem restart_chain_equivalence {y0 yN yN' : Sys} {evs : List Ev} (hres : Restarts y0 evs yN')
+    (h0 : Start1 y0) (hh : HistOk y0 evs) (hrun : run y0 evs = .ok yN) :
+    ∃ t ra rb, ObsR True t ra rb yN.s yN'.s ∧ yN.jobs = yN'.jobs ∧ ∃ pre, yN.s.rows = pre ++ yN'.s.rows :=
+  restart_chain hres h0 hh hrun
+
+/-- the induction step of 7: the state rebuilt from the image of a stop state is again a one-worker start state -/
+theorem restart_closed_one_worker {s s' : St} {pns : List Nat} {occ : List (List Int)}
+    (hS : StopState s pns) (hc : CoreR s [] s.trajNum) (hf : Fam s s.trajNum) (ht : Tidy s) (hw : s.workers = 1)
+    (hres : restore (persist s) s.n s.workers s.tsteps occ s.ensEng (fun pn => (s.wts.lookup pn).getD []) = .ok s')
+    (hR : RestoreRel occ s s') : Start1 { s := s', jobs := [] } :=
+  restored_start1 hS hc hf ht hw hres hR
+
 /-! ### non-vacuity on concrete small systems -/
 
 /-- 3 ensembles + ghost, 2 workers, restarted at cstep 4 of 9 with two recorded jobs -/
@@ -332,6 +388,72 @@ example : ∃ s', restore (persist exR.1) 3 1 6 [[-1]] [[0], [0]] (fun pn => (ex
   have h4 : exR.1.ensEng = [[0], [0]] := by decide +kernel
   rw [h1, h2, h3, h4] at this
   exact this
+
+/-! the same system as a member of the reachable family: fresh one-worker start state, well-formed history -/
+
+def exY0 : Sys := { s := exFresh, jobs := [] }
+
+def exPre : List Ev :=
+  [.start { t := 1, e := 1 }, .initDone, .step 0 .acc exW { t := 0, e := 0 }, .step 0 .rej [] { t := 1, e := 1 }]
+
+def exHist : List Ev := exPre ++ (.step 0 .acc exW { t := 1, e := 1 } :: exRest)
+
+theorem exFresh_loaded :
+    loadPaths (blank 3 1 6 0 2 5 [[-1]] [[0], [0]] false []) [(0, [1], [0, 0, 0]), (1, [1, 0], [0, 0, 0])] = .ok exFresh :=
+  eq_ok_of_okEq (by decide +kernel)
+
+theorem exStart1 : Start1 exY0 := by
+  have h5 : Init5 exY0 := by
+    apply init5_of_loadPaths 3 1 6 0 2 5 [[-1]] [[0], [0]] false _ exFresh (by decide) (by decide) (by decide)
+      (by decide) ?_ exFresh_loaded
+    intro i hi
+    match i, hi with
+    | 0, _ =>
+      show VecOk 3 (-1) [1]
+      exact Frac.vecOk_of_B (by decide +kernel)
+    | 1, _ =>
+      show VecOk 3 0 [1, 0]
+      exact Frac.vecOk_of_B (by decide +kernel)
+  have hk : exFresh.wts.map Prod.fst = [1, 0] := by decide +kernel
+  have htr : exFresh.trajs = [some 0, some 1, none] := by decide +kernel
+  refine ⟨Or.inl h5, ⟨by decide +kernel, by decide +kernel, by decide +kernel, ?_⟩, by decide +kernel,
+    by decide +kernel, by decide +kernel, ⟨by decide +kernel, by decide +kernel, by decide +kernel⟩, by decide +kernel⟩
+  intro q
+  show q ∈ exFresh.wts.map Prod.fst ↔ some q ∈ exFresh.trajs
+  rw [hk, htr]
+  simp only [List.mem_cons, List.not_mem_nil, or_false, Option.some.injEq, reduceCtorEq]
+  omega
+
+theorem exHistOk : HistOk exY0 exHist := Frac.histOk_of_B _ _ (by decide +kernel)
+
+def exYN : Sys := match run exY0 exHist with | .ok y => y | .error _ => exY0
+
+theorem exRuns : run exY0 exHist = .ok exYN := eq_ok_of_okEq (by decide +kernel)
+
+/-- all hypotheses of `restart_equivalence_reachable` hold on the concrete history (split after the third step) -/
+example : Start1 exY0 ∧ StepsOnly (exPre.drop 2) ∧ StepsOnly exRest ∧ exRest ≠ [] ∧ HistOk exY0 exHist ∧
+    run exY0 exHist = .ok exYN :=
+  ⟨exStart1, by simp [exPre, StepsOnly], by simp [exRest, StepsOnly], by simp [exRest], exHistOk, exRuns⟩
+
+/-- … and its conclusion, instantiated: the restarted run exists and ends observationally equal -/
+example : ∃ y r s' yN', run exY0 exPre = .ok y ∧ stepTreat y 0 .acc exW = .ok r ∧ StopState r.1 (livePns r.1) ∧
+    restore (persist r.1) r.1.n r.1.workers r.1.tsteps (freeEngines r.1.occ 0) r.1.ensEng
+      (fun pn => (r.1.wts.lookup pn).getD []) = .ok s' ∧
+    run { s := s', jobs := [] } (.start { t := 1, e := 1 } (persist r.1).rngDraws :: .initDone :: exRest) = .ok yN' ∧
+    ObsR True (-1) r.1.rows [] exYN.s yN'.s ∧ exYN.jobs = yN'.jobs ∧
+    ∃ rws, exYN.s.rows = r.1.rows ++ rws ∧ yN'.s.rows = rws :=
+  restart_equivalence_reachable exStart1 { t := 1, e := 1 } 0
+    [.step 0 .acc exW { t := 0, e := 0 }, .step 0 .rej [] { t := 1, e := 1 }] 0 .acc exW { t := 1, e := 1 } exRest
+    (by simp [StepsOnly]) (by simp [exRest, StepsOnly]) (by simp [exRest]) exHistOk exRuns
+
+/-- a run with one restart exists for the concrete history (so `restart_chain_equivalence` is not vacuous) -/
+example : ∃ yN', Restarts exY0 exHist yN' := by
+  obtain ⟨y, r, s', yN', a1, a2, _, a4, a5, _⟩ :=
+    restart_equivalence_reachable exStart1 { t := 1, e := 1 } 0
+      [.step 0 .acc exW { t := 0, e := 0 }, .step 0 .rej [] { t := 1, e := 1 }] 0 .acc exW { t := 1, e := 1 } exRest
+      (by simp [StepsOnly]) (by simp [exRest, StepsOnly]) (by simp [exRest]) exHistOk exRuns
+  exact ⟨yN', Restarts.restart (by simp [StepsOnly]) (by simp [exRest, StepsOnly]) (by simp [exRest]) a1 a2 a4
+    (Restarts.direct a5)⟩
 
 /-- observational equality is not equality: the two sides of a restart differ in `cworker`, `restarted`, `rows` … -/
 example : ObsEq exRestored { exRestored with cworker := 1, restarted := false, rgenRestored := true } :=
